@@ -571,32 +571,7 @@ static void judgeMatrix(Ctx& C, uint64_t id, const Info& I, const Geo& g, double
   (void)thorough;
 }
 
-VF_PART(psd)
-{
-  const bool th = C.thorough();
-  Space sp;
-  // the axes have the same sizes in both tiers (a case id denotes the same stimulus everywhere); quick skips the extra entries
-  sp.axis("set", NSETS).axis("type", NTYPE).axis("ndim", 3).axis("param", NPARAM_AXIS).axis("range", 4).axis("aniso", 3).axis("rot", 6);
-  for_each_case(C, sp, [&](uint64_t id, const std::vector<int>& idx) {
-    const Info& I = TABLE[idx[1]];
-    int nd = idx[2] + 1;
-    if (I.kind == NOT_ON_RN) { if (idx[0] + idx[3] + idx[4] + idx[5] + idx[6] == 0) { C.skip(); C.outcome("excluded:no-covariance-on-Rn(spectral/sphere-only)"); } return; }
-    if (!th && C.only_case.empty() && (!setInQuick(idx[0]) || idx[4] >= 3 || idx[6] >= 4)) return;
-    // the largest lattices (100 / 14^2 / 6^3 points) at every other step only: 0.1, 0.25, 0.4, 0.6, 0.9, 0.05, 1 (cost)
-    if (C.only_case.empty() && idx[0] < 42 && idx[0] / 14 == 2 && (idx[0] % 14) % 2 == 1) return;
-    double param = paramOf(I, idx[3], th || !C.only_case.empty());
-    if (param == -1e300) return;
-    if (nd == 1 && (idx[5] || idx[6])) return;            // no anisotropy/rotation in 1-D
-    if (idx[5] == 0 && idx[6] > 1) return;                // rotating an isotropic model must change nothing: one rotation is enough
-    if (std::string(I.key) == "NUGGET" && (idx[4] || idx[5] || idx[6])) return;
-    Geo g = makeGeo(nd, idx[4], idx[5], idx[6]);
-    std::string name;
-    Pts P = makeSet(nd, idx[0], RANGES[idx[4]], name);
-    if (id % 20011 == 3) C.sample("{\"id\":" + std::to_string(id) + ",\"case\":" + jstr(caseText(I, g, param, name)) + "}");
-    judgeMatrix(C, id, I, g, param, P, name, th);
-  });
-}
-
+// (part psd, the expensive one, is registered LAST - see the end of the file - so that a deadline truncates it and not the cheap parts)
 // =================================================================================================================
 // Part pointwise: Model::eval / evalIvarIpas / eval0 / CovCalcMode on lag vectors: evenness, variogram and unitary modes,
 // scale-vs-range parametrisation, declared scale factor, translation invariance
@@ -1113,6 +1088,34 @@ VF_PART(setters)
     }
     if (rotatedThenDir) C.nontrivial(id);
     if (id % 9973 == 11) C.sample("{\"id\":" + std::to_string(id) + ",\"history\":" + jstr(std::string(I.key) + " ndim=" + std::to_string(nd) + " {" + hist + "}") + "}");
+  });
+}
+
+// =================================================================================================================
+// Part psd (driver of judgeMatrix above)
+VF_PART(psd)
+{
+  const bool th = C.thorough();
+  Space sp;
+  // the axes have the same sizes in both tiers (a case id denotes the same stimulus everywhere); quick skips the extra entries
+  sp.axis("set", NSETS).axis("type", NTYPE).axis("ndim", 3).axis("param", NPARAM_AXIS).axis("range", 4).axis("aniso", 3).axis("rot", 6);
+  for_each_case(C, sp, [&](uint64_t id, const std::vector<int>& idx) {
+    const Info& I = TABLE[idx[1]];
+    int nd = idx[2] + 1;
+    if (I.kind == NOT_ON_RN) { if (idx[0] + idx[3] + idx[4] + idx[5] + idx[6] == 0) { C.skip(); C.outcome("excluded:no-covariance-on-Rn(spectral/sphere-only)"); } return; }
+    if (!th && C.only_case.empty() && (!setInQuick(idx[0]) || idx[4] >= 3 || idx[6] >= 4)) return;
+    // the largest lattices (100 / 14^2 / 6^3 points) at every other step only: 0.1, 0.25, 0.4, 0.6, 0.9, 0.05, 1 (cost)
+    if (C.only_case.empty() && idx[0] < 42 && idx[0] / 14 == 2 && (idx[0] % 14) % 2 == 1) return;
+    double param = paramOf(I, idx[3], th || !C.only_case.empty());
+    if (param == -1e300) return;
+    if (nd == 1 && (idx[5] || idx[6])) return;            // no anisotropy/rotation in 1-D
+    if (idx[5] == 0 && idx[6] > 1) return;                // rotating an isotropic model must change nothing: one rotation is enough
+    if (std::string(I.key) == "NUGGET" && (idx[4] || idx[5] || idx[6])) return;
+    Geo g = makeGeo(nd, idx[4], idx[5], idx[6]);
+    std::string name;
+    Pts P = makeSet(nd, idx[0], RANGES[idx[4]], name);
+    if (id % 20011 == 3) C.sample("{\"id\":" + std::to_string(id) + ",\"case\":" + jstr(caseText(I, g, param, name)) + "}");
+    judgeMatrix(C, id, I, g, param, P, name, th);
   });
 }
 
